@@ -43,16 +43,32 @@ def build(ck):
             _interp_analytic(ck, D, N)
         if want(f"interp/grid/D{D}N{N}") and N**D <= 36:
             _interp_grid(ck, D, N)
-    pairs1 = [(5, 6), (6, 5), (6, 8), (8, 6), (5, 7), (7, 5), (4, 6), (6, 4)] if not thorough else [(a, b) for a in (4, 5, 6, 7, 8) for b in (4, 5, 6, 7, 8) if a != b]
+    pairs1 = [(5, 6), (6, 5), (6, 8), (8, 6), (5, 7), (7, 5), (4, 6), (6, 4), (8, 4), (4, 8), (6, 3), (3, 6)] if not thorough else [(a, b) for a in (4, 5, 6, 7, 8) for b in (4, 5, 6, 7, 8) if a != b]
     for a, b in pairs1:
         if want(f"resize/D1/{a}to{b}"):
             _resize(ck, 1, a, b)
-    for a, b in [(4, 5), (5, 4), (5, 6), (6, 5)] + ([(4, 6), (6, 4), (3, 5), (5, 3)] if thorough else []):  # odd and even common sizes
+    for a, b in [(4, 5), (5, 4), (5, 6), (6, 5), (6, 3)] + ([(4, 6), (6, 4), (3, 5), (5, 3), (3, 6)] if thorough else []):  # odd and even common sizes
         if want(f"resize/D2/{a}to{b}"):
             _resize(ck, 2, a, b)
     if thorough and want("resize/D3"):
         _resize(ck, 3, 3, 4)
         _resize(ck, 3, 4, 3)
+
+
+def _mean_replay(D, N_old, N_new, oddball):
+    def replay(model):
+        rng = np.random.default_rng(4)
+        worst, what = 0.0, ""
+        g = ex.make_grid(D, 1.0, N_old)
+        top = jnp.cos(2 * np.pi * N_new * g[0:1])  # a mode the new grid cannot resolve, on top of a non-zero mean
+        for nm, v in (("white noise", jnp.asarray(rng.normal(size=(1,) + (N_old,) * D))), (f"1 + cos(2 pi {N_new} x)", 1.0 + top)):
+            w = ex.map_between_resolutions(v, N_new, oddball_zero=oddball)
+            e = abs(float(jnp.mean(w)) - float(jnp.mean(v)))
+            if e > worst:
+                worst, what = e, nm
+        return {"reproduced": worst > 1e-9, "detail": f"map_between_resolutions {N_old}->{N_new} (D={D}, oddball_zero={oddball}) changes the mean of {what} by {worst:.3g}"}
+
+    return replay
 
 
 def _interp_analytic(ck, D, N):
@@ -184,5 +200,5 @@ def _resize(ck, D, N_old, N_new):
         v = insf[0].sym
         mean_in = sym.rmul(orc.fl(Fraction(1, N_old**D)), sym.rsum([v[i] for i in np.ndindex(v.shape)]))
         ck.add(f"{tag}/mean", sym.equal_goal(enc3.outs[0][()], mean_in), [], family="every resolution change preserves the mean of any state", timeout=120,
-               replay=lambda m: {"reproduced": True, "detail": "mean changed by map_between_resolutions"})
+               replay=_mean_replay(D, N_old, N_new, oddball))
     ck.add(f"resize/D{D}/{N_old}to{N_new}/twin", sym.equal_goal(enc.outs[0][(0,) * (D + 1)], sym.rmul(orc.fl(2), fld[(0,) * (D + 1)])), [], family="C15/twin", expect="sat")
